@@ -352,12 +352,12 @@ def handleLeaf (toks : List String) : String :=
   | ["bits.bit", unused, bits, lo, hi] =>
     match unused.toNat?, ofHex bits, lo.toNat?, hi.toNat? with
     | some u, some bs, some lo, some hi =>
-      if u > 7 || (bs.isEmpty && u != 0) then "PANIC BitString::new assertion" else
-      let b : BitString := ⟨UInt8.ofNat u, bs⟩
       resStr do
+        let b ← BitString.new (UInt8.ofNat u) bs
         let len ← b.bitLen
         let l := (List.range (hi - lo)).map fun i => b.bit (lo + i)
-        pure s!"len={len} unused={u} olen={bs.length} bits={bitStr l} octets={toHex bs} slice={toHex bs} obytes={toHex bs}"
+        let sl := match b.octetSlice with | some x => toHex x | none => "none"
+        pure s!"len={len} unused={b.unusedBits.toNat} olen={b.octetLen} bits={bitStr l} octets={toHex b.octets} slice={sl} obytes={toHex b.octetBytes}"
     | _, _, _, _ => "bad-op"
   | _ => "bad-op"
 
